@@ -447,8 +447,9 @@ func (b *UnsafeLinkBuffer) MallocAck(n int) (err error) {
 	b.mallocSize = n
 	b.write = b.flush
 
+	// n == 0 must truncate the first node as well, so the loop always runs at least once.
 	var l int
-	for ack := n; ack > 0; ack = ack - l {
+	for ack := n; ; ack = ack - l {
 		l = b.write.malloc - len(b.write.buf)
 		if l >= ack {
 			b.write.malloc = ack + len(b.write.buf)
